@@ -125,6 +125,43 @@ FAULT_BASES = [dict(kind="telnet", variant="ok"), dict(kind="ssh", variant="phra
                dict(kind="net_interactive", platform="cisco_iosxe")]
 
 
+# scenario kinds that carry a secret over the Sim transports: the device goes silent at a step and the REAL timeout
+# decorator ends the operation, on each of its mechanisms (props/c12_scen.py MECHS)
+SILENT_BASES = [dict(kind="telnet", variant="ok"), dict(kind="ssh", variant="phrase"), dict(kind="interactive"),
+                dict(kind="net_interactive", platform="cisco_iosxe")] + \
+               [dict(kind="escalate", platform=p, variant="ok") for p in
+                ("cisco_iosxe", "cisco_nxos", "arista_eos", "juniper_junos", "cisco_iosxr")]
+WRITE_FAIL = {"telnet": ("epipe", "reset"), "system": ("epipe",), "paramiko": ("reset",), "asyncssh": ("epipe",), "asynctelnet": ()}
+
+
+def sim_secret_steps(trace, cores):
+    """[(write index, reads before it, roles)] of the writes of a Sim transport trace that carry a secret canary"""
+    out, nw, nr = [], 0, 0
+    for x in trace:
+        if x[0] == "W":
+            nw += 1
+            if any(c in x[1] for c in cores):
+                out.append((nw, nr))
+        elif x[0] in ("R", "stall"):
+            nr += 1
+    return out
+
+
+def real_bases(tier, rng):
+    """(transport plugin, work, platform) of the runs over the REAL transport plugins"""
+    from props.c12_scen import PLATFORMS, REAL_STACK
+    trs = list(REAL_STACK)
+    out = [(t, "login", "generic") for t in ("telnet", "asynctelnet", "system")]
+    out += [(t, "interactive", "generic") for t in trs]
+    for i, p in enumerate(PLATFORMS):
+        if tier == "thorough":
+            out += [(t, "escalate", p) for t in trs]
+        else:
+            others = [t for t in trs if t != "telnet"]
+            out += [("telnet", "escalate", p), (others[(i + rng.randrange(4)) % 4], "escalate", p)]
+    return out
+
+
 def spec_key(sp, meta=None, n=0):
     return "/".join(f"{k}={sp[k]}" for k in sorted(sp)) + (f"/meta={meta!r}" if meta is not None else "") + (f"/#{n}" if n else "")
 
@@ -185,6 +222,26 @@ def log_model_cases(cap, tier):
     return cases, trouble
 
 
+class _Watchdog:
+    """the scenario runs block on purpose (silent devices, real timeouts): if the rig itself ever hangs, say where and leave
+    with exit code 2 (harness trouble) instead of holding the shared locks for ever"""
+
+    def __init__(self, seconds):
+        import threading
+        self.t = threading.Timer(seconds, self._fire)
+        self.t.daemon = True
+        self.t.start()
+
+    def _fire(self):
+        import faulthandler, sys
+        print("C12: harness trouble: the scenario runs hung; stacks follow", file=sys.stderr, flush=True)
+        faulthandler.dump_traceback(all_threads=True)
+        os._exit(2)
+
+    def cancel(self):
+        self.t.cancel()
+
+
 # ---------------------------------------------------------------- run
 def run(tier, seed):
     ck = Check(PID, tier, seed, level="proof")
@@ -194,10 +251,13 @@ def run(tier, seed):
                "prompts ok/rejected, privilege escalation with auth_secondary on the five platforms ok/wrong/timeout, send_interactive "
                "with hidden inputs incl. use of the returned Response, factory construction, paramiko/asyncssh open() against library "
                "fakes, real timeout decorator) x sync/asyncio x canary secrets with format/regex metacharacter prefixes and suffixes "
-               "(every META string used on both sides) x faults (EOF / ScrapliTimeout at read k, EOF at write k). Non-trivial = a secret "
+               "(every META string used on both sides) x faults (EOF / ScrapliTimeout at read k, EOF at write k; device silent at step k "
+               "with the REAL operation timeout on each mechanism: signal / thread pool by class name / thread pool off the main thread / "
+               "asyncio; the REAL transport plugins telnet, asynctelnet, system, paramiko, asyncssh over a scripted line with send failure "
+               "EPIPE/ECONNRESET/EIO, EOF, reset, silence at the secret-carrying write, the write after and the read after). Non-trivial = a secret "
                "canary was really written to the device or handed to the library. Scanned: every record on the scrapli logger tree "
                "(message, msg, args, extras), both enable_basic_logging files, repr/str of the driver, str/repr/args of every exception "
-               "and its cause/context chain, the channel log.")
+               "and its cause/context chain, the channel log, repr of transport / channel / args dataclasses (dataclasses advisory).")
     ck.trusted = ["Lean 4.33.0 kernel; axioms of every theorem audited ⊆ {propext, Classical.choice, Quot.sound}",
                   "tools/gen/c12.py (+c12_index.py, c12_flow.py): the AST flow-graph extraction (name based, intra-package; rules in design/C12.md)",
                   "props/c12.py, props/c12_scen.py, harness/secretdevice.py (canary runs, scan, tie of observed flows to the graph, "
@@ -246,6 +306,8 @@ def run(tier, seed):
     advisory_hits = 0
     lib_saw = 0
     t_dyn = time.time()
+    rig_trouble = []
+    watchdog = _Watchdog(900 if tier == "quick" else 5400)
     try:
         # corpus first (regression: the pre-fix witness of findings/C12.json)
         todo = []
@@ -274,7 +336,74 @@ def run(tier, seed):
                             meta = (ck.rng.choice(S.META), ck.rng.choice(S.META))
                             res = S.run_scenario(spec_key(sp, meta), sp, seed, cap, meta)
                             results.append((sp, meta, res, "fault"))
+        # ---- the device goes SILENT at a step: the real timeout decorator fires, on each of its mechanisms.  Always at the
+        #      write that carries a secret and at the one after it (the return), plus sampled / all other steps
+        t_sil = time.time()
+        for bi, base in enumerate(SILENT_BASES):
+            for mi, mech in enumerate(S.MECHS):
+                stack = "async" if mech == "asyncio" else "sync"
+                sp0 = dict(base, stack=stack)
+                clean = S.run_scenario(spec_key(sp0) + "/clean2", sp0, seed, cap, ("", ""))
+                tr_ = getattr(clean.conn, "transport", None)
+                cores = [clean.can[r].core.encode() for r in S.SECRET_ROLES]
+                steps = sim_secret_steps(getattr(tr_, "trace", []), cores)
+                if not steps and base.get("platform") != "cisco_iosxr":
+                    rig_trouble.append(("no secret write in the clean run", spec_key(sp0)))
+                ks = set()
+                for j, (kw, nr) in enumerate(steps):
+                    ks.add(("write", kw))
+                    if tier == "thorough" or (j + mi + seed) % 2 == 0:
+                        ks.add(("write", kw + 1))
+                    else:
+                        ks.add(("read", nr + 1))
+                allw = [("write", k) for k in range(1, clean.nwrites + 1) if ("write", k) not in ks]
+                ks |= set(allw if tier == "thorough" else ck.rng.sample(allw, min(1, len(allw))))
+                for where, k in sorted(ks):
+                    sp = dict(sp0, mech=mech, fault=(where, k, "silent"), timeout_ops=0.15)
+                    meta = (ck.rng.choice(S.META), ck.rng.choice(S.META))
+                    res = S.run_scenario(spec_key(sp, meta), sp, seed, cap, meta)
+                    results.append((sp, meta, res, "silent"))
+        ck.extra["silent_device_wall_s"] = round(time.time() - t_sil, 1)
+        # ---- the REAL transport plugins over a scripted line: send failure (EPIPE / ECONNRESET / EIO), EOF, reset, silence
+        #      at the secret-carrying write, the write after it and the read after it; plus sampled / all other steps
+        t_real = time.time()
+        for tr, work, plat in real_bases(tier, ck.rng):
+            sp0 = dict(kind="real", stack=S.REAL_STACK[tr], transport=tr, work=work, platform=plat)
+            clean = S.run_scenario(spec_key(sp0) + "/clean", sp0, seed, cap, ("", ""))
+            results.append((sp0, ("", ""), clean, "real"))
+            if clean.outcome != "ok" or clean.line is None:
+                rig_trouble.append(("clean run over the real transport plugin failed: " + clean.outcome, spec_key(sp0)))
+                continue
+            cores = {r: clean.can[r].core.encode() for r in S.SECRET_ROLES}
+            steps = clean.line.secret_steps(list(cores.values()))
+            if tier != "thorough" and work != "login":
+                # the login secrets of this transport are exercised by its login base
+                login = clean.line.secret_steps([cores["PW"], cores["PP"]])
+                steps = [s_ for s_ in steps if s_ not in login]
+            fl = set()
+            for kw, nr in steps:
+                for a in WRITE_FAIL[tr] + ("silent", "eof"):
+                    fl.add(("write", kw, a))
+                fl.add(("write", kw + 1, "silent"))
+                for a in WRITE_FAIL[tr][:1]:
+                    fl.add(("write", kw + 1, a))
+                for a in ("eof", "reset", "silent"):
+                    fl.add(("read", nr + 1, a))
+            rest = [(w_, k, a) for w_, n_ in (("write", clean.line.nwrites), ("read", clean.line.nreads)) for k in range(1, n_ + 1)
+                    for a in ((WRITE_FAIL[tr] + ("silent", "eof")) if w_ == "write" else ("eof", "reset", "silent"))]
+            rest = [f_ for f_ in rest if f_ not in fl]
+            fl |= set(rest if tier == "thorough" else ck.rng.sample(rest, min(2, len(rest))))
+            for f_ in sorted(fl):
+                sp = dict(sp0, fault=f_)
+                meta = (ck.rng.choice(S.META), ck.rng.choice(S.META))
+                res = S.run_scenario(spec_key(sp, meta), sp, seed, cap, meta)
+                results.append((sp, meta, res, "realfault"))
+                if res.outcome == "rigstall":
+                    rig_trouble.append(("read blocked and no timeout fired", spec_key(sp)))
+        ck.extra["real_transport_wall_s"] = round(time.time() - t_real, 1)
+        ck.extra["rig_trouble"] = rig_trouble[:10]
     finally:
+        watchdog.cancel()
         lg.removeHandler(cap)
         for h in file_handlers:
             try:
@@ -300,6 +429,8 @@ def run(tier, seed):
     for sp, meta, res, origin in results:
         wrote_secret = False
         t = getattr(res.conn, "transport", None) if res.conn is not None else None
+        if getattr(res, "line", None) is not None:
+            t = res.line
         if t is not None and hasattr(t, "writes"):
             w = t.writes().decode("utf-8", "replace")
             wrote_secret = any(res.can[r].core in w for r in S.SECRET_ROLES)
@@ -310,7 +441,10 @@ def run(tier, seed):
                 sample={"scenario": {k: v for k, v in sp.items()}, "meta": list(meta) if meta else None, "outcome": res.outcome,
                         "exhibits": len(res.exhibits)},
                 tags=(f"kind={sp['kind']}", f"stack={sp['stack']}", f"outcome={res.outcome}", f"origin={origin}",
-                      "fault=" + (sp["fault"][0] + ":" + sp["fault"][2] if sp.get("fault") else "none")))
+                      "fault=" + (sp["fault"][0] + ":" + sp["fault"][2] if sp.get("fault") else "none"),
+                      "timeout_mechanism=" + (sp.get("mech") or ({"telnet": "threadpool", "system": "threadpool", "paramiko": "signal"}.get(
+                          sp.get("transport"), "asyncio") if sp.get("kind") == "real" else "-")),
+                      "transport=" + (sp.get("transport") or "sim")))
         for r in S.SECRET_ROLES:
             secrets_used.append((res.key, r, res.can[r], r in res.echoed, sp))
         for ex in res.exhibits:
@@ -504,9 +638,15 @@ def run(tier, seed):
                              "records of a redacted/hidden write depend on the input", matcher)
     ck.exhaustive = True
     ck.extra["exhaustive_scope"] = (f"log sites: {len(LM_INPUTS)} inputs x {len(LM_HIDDEN)} flag values x {len(LM_RESP)} prompts x 2 stacks; "
-                                    "faults: " + ("every" if tier == "thorough" else "5 sampled") + " read/write index of 6 base scenarios x 2 stacks")
+                                    "faults: " + ("every" if tier == "thorough" else "5 sampled") + " read/write index of 6 base scenarios x 2 stacks; "
+                                    "silent device / real-transport faults: ALWAYS the secret-carrying writes (+ the step after), "
+                                    + ("every other step" if tier == "thorough" else "1-2 sampled other steps"))
     ck.extra["programs"] = len(results)
-    return ck.finish()
+    rc = ck.finish()
+    if rc == 0 and rig_trouble:
+        print(f"C12: harness trouble (no verdict): {rig_trouble[:3]}")
+        return 2
+    return rc
 
 
 def replay(path):
